@@ -330,7 +330,17 @@ def _check_native(mode):
         import itertools as it
         nonunit = CustomGateDefinition("nonunitary", sympy.Matrix([[1, 0.5], [0.25j, 2]]), ())()
         wide = CustomGateDefinition("threeq", sympy.Matrix(np.diag([1, 1j, -1, 1, 1, -1j, 1, np.exp(0.3j)]).tolist()), ())()
-        bases = [("nonunitary 1-qubit gate", nonunit, 2), ("3-qubit diagonal gate", wide, 2), ("X.controlled(2)", X.controlled(2), 2), ("RX(0.4)", RX(0.4), 3)]
+        # complex entries written without an explicit I ((-1)**(1/4), roots of -1), complex-SYMMETRIC but not hermitian matrices (diag(1, i), sqrt X, iSWAP-like)
+        implicit = CustomGateDefinition("implicit", sympy.Matrix([[1, 0], [0, (-1) ** sympy.Rational(1, 4)]]), ())()
+        clock = CustomGateDefinition("clock", sympy.Matrix(sympy.diag(1, sympy.root(-1, 3) ** 2)), ())()
+        my_s = CustomGateDefinition("myS", sympy.Matrix([[1, 0], [0, sympy.I]]), ())()
+        my_sx = CustomGateDefinition("mySX", sympy.Matrix([[1 + sympy.I, 1 - sympy.I], [1 - sympy.I, 1 + sympy.I]]) / 2, ())()
+        my_iswap = CustomGateDefinition("myISWAP", sympy.Matrix([[1, 0, 0, 0], [0, 0, sympy.I, 0], [0, sympy.I, 0, 0], [0, 0, 0, 1]]), ())()
+        tpar = sympy.Symbol("t")
+        ph = CustomGateDefinition("PH", sympy.Matrix([[1, 0], [0, (-1) ** tpar]]), (tpar,))(sympy.Rational(1, 5))
+        bases = [("nonunitary 1-qubit gate", nonunit, 2), ("3-qubit diagonal gate", wide, 2), ("X.controlled(2)", X.controlled(2), 2), ("RX(0.4)", RX(0.4), 3),
+                 ("custom diag(1, (-1)**(1/4))", implicit, 2), ("custom clock gate from root(-1, 3)", clock, 2), ("custom diag(1, i)", my_s, 2), ("custom sqrt-X", my_sx, 2),
+                 ("custom iSWAP-like", my_iswap, 2), ("custom diag(1, (-1)**t) at t = 1/5", ph, 2)]
         mods = {"dagger": (lambda g: g.dagger, lambda M: M.conj().T), "c1": (lambda g: g.controlled(1), lambda M: scipy.linalg.block_diag(np.eye(len(M)), M)),
                 "p-1": (lambda g: g.power(-1), lambda M: np.linalg.inv(M)), "p0": (lambda g: g.power(0), lambda M: np.eye(len(M))),
                 "p2": (lambda g: g.power(2), lambda M: M @ M), "p-2": (lambda g: g.power(-2), lambda M: np.linalg.inv(M @ M))}
